@@ -37,9 +37,16 @@ Theorem C20_exclude_written_exact : forall ipats pats top,
 Proof. exact exclude_written_exact. Qed.
 
 Theorem C20_final_state_spec_excl : forall ipats pats delete top extras,
-  final_state (sel_exclude ipats pats) delete top extras =
-  spec_final_w (spec_written_excl (sel_exclude ipats pats) top) (sel_exclude ipats pats) delete top extras.
+  final_state (sel_exclude ipats pats) delete top extras = spec_final_excl (sel_exclude ipats pats) delete top extras.
 Proof. exact final_state_spec_excl. Qed.
+
+(* where --delete acts: leaveDir runs exactly for the directories that are selected or hold a selected entry
+   somewhere below (prune-safe filters), resp. for the selected directories below selected directories (exclude) *)
+Theorem C20_leave_exact : forall sel top, sel_sound sel -> w_leave (walk_root sel top) = leave_spec_root sel top.
+Proof. exact leave_root_exact. Qed.
+
+Theorem C20_leave_excl_exact : forall sel top, excl_form sel -> w_leave (walk_root sel top) = leave_excl_root sel top.
+Proof. exact leave_excl_root_exact. Qed.
 
 (* --delete removes a pre-existing entry iff leaveDir runs for its directory, its name is not a child of the
    snapshot directory and the filter selects it *)
@@ -58,5 +65,7 @@ Print Assumptions C20_include_is_disjunction.
 Print Assumptions C20_exclude_prune_safe.
 Print Assumptions C20_exclude_written_exact.
 Print Assumptions C20_final_state_spec_excl.
+Print Assumptions C20_leave_exact.
+Print Assumptions C20_leave_excl_exact.
 Print Assumptions C20_delete_exact.
 Print Assumptions C20_final_state_spec.
